@@ -730,6 +730,10 @@ impl Mon {
         {
             let ids: HashSet<u64> = post.prs.iter().map(|p| p.id).collect();
             self.b.nb[ni].snap_out.retain(|k, _| ids.contains(k));
+            // a membership change may remove and re-add a peer in one step: its progress is new
+            if matches!(kind, CallKind::ApplyConf) {
+                self.b.nb[ni].snap_out.retain(|k, _| pr_of(post, *k).map_or(false, |p| p.state == ProgressState::Snapshot));
+            }
         }
         let mut appends_with_entries: HashMap<u64, usize> = HashMap::new();
         let mut appends_any: HashMap<u64, usize> = HashMap::new();
